@@ -159,4 +159,43 @@ PROPS = {
                      "obs_wake_progress_checks", "obs_init_pending_polls", "obs_leaf_future_polls", "layer_miri_obs_waker_identity_checks"],
         assumptions=COMMON_ASSUMPTIONS,
     ),
+    "C09": dict(
+        level="exploration",
+        technique="runtime monitoring: randomized multi-thread System/Arbiter stop scenarios with a result/termination oracle and quiescence-proved stuck detection; Miri many-seeds (data races, UB) and ThreadSanitizer on the same workload",
+        level_text="Seeded scenarios create a real System with 0..3 arbiters in assorted states, issue one or two stop_with_code calls from the system thread, an arbiter thread or a foreign thread (ordered by the harness or racing), and check the code returned by run/run_with_code, the Ok/Err mapping of run, and that every arbiter created before the stop ends its loop (join returns; a dropped arbiter releases its parked task). The same binary runs under Miri with many seeds and under TSan.",
+        level_note="Trusted: the harness's ordering of 'ordered' stops (thread join / completion flags), /proc-based quiescence proof for 'stuck' (a watchdog alone never yields a violation). Interleavings are those the OS scheduler, jitter and Miri's seeds produce.",
+        design_ref="§5 C09",
+        engine="vh-rt",
+        layers={
+            "quick": [L("native", "vh-rt", shards=8, extra={"n": 24000}),
+                      L("miri", "vh-rt", "miri", tier="miri", shards=12, timeout=900, extra={"n": 72})],
+            "thorough": [L("native", "vh-rt", tier="thorough", shards=16, timeout=2400),
+                         L("tsan", "vh-rt", "tsan", tier="tsan", shards=8, timeout=1800),
+                         L("miri", "vh-rt", "miri", tier="miri", shards=16, timeout=2400, extra={"n": 640})],
+        },
+        obligations=["obs_arbiters_created", "obs_joins_checked", "obs_dropped_arbiters_observed", "obs_early_stopped_arbiters",
+                     "obs_ordered_or_single_stop_codes_checked", "obs_racing_first_won", "obs_racing_second_won", "obs_run_err_for_nonzero",
+                     "obs_run_ok_for_zero", "obs_stops_from_arbiter_thread", "obs_stops_from_foreign_thread", "layer_miri_obs_joins_checked"],
+        assumptions=COMMON_ASSUMPTIONS,
+    ),
+    "C10": dict(
+        level="exploration",
+        technique="runtime monitoring: per-task execution stamps (entry count, start sequence, thread, current system/arbiter) written to relaxed atomics, checked after join against FIFO / at-most-once / thread-identity / nothing-after-stop rules; Miri many-seeds and ThreadSanitizer",
+        level_text="Seeded command sequences (spawn, spawn_fn, stop; tasks that complete, pend, panic, spawn a nested probe) are sent to a real arbiter from 1..4 threads in barrier-separated phases; every task stamps its execution into per-task atomics and the stamps are checked after join: FIFO per sender and across phases, at most one entry, the arbiter's own thread, System::current()/Arbiter::current() identity, nothing sent after a returned stop() starts, spawn false once the arbiter is gone, parked tasks dropped when join returns, block_on returns its future's output.",
+        level_note="Trusted: the barrier/ticket ordering in the harness; relaxed atomics keep the monitors from adding synchronisation on the arbiter thread. Tasks sent before a stop may legitimately not start; only the FIFO and after-stop rules are applied to them.",
+        design_ref="§5 C10",
+        engine="vh-rt",
+        layers={
+            "quick": [L("native", "vh-rt", shards=8, extra={"n": 16000}),
+                      L("miri", "vh-rt", "miri", tier="miri", shards=12, timeout=900, extra={"n": 72})],
+            "thorough": [L("native", "vh-rt", tier="thorough", shards=16, timeout=2400),
+                         L("tsan", "vh-rt", "tsan", tier="tsan", shards=8, timeout=1800),
+                         L("miri", "vh-rt", "miri", tier="miri", shards=16, timeout=2400, extra={"n": 640})],
+        },
+        obligations=["obs_tasks_sent", "obs_tasks_started", "obs_fifo_pairs_same_sender", "obs_fifo_pairs_cross_phase", "obs_tasks_sent_after_stop_checked",
+                     "obs_spawn_false_after_gone", "obs_thread_identity_checks", "obs_nested_probes_landed", "obs_parked_tasks_dropped_at_join",
+                     "obs_panicking_tasks_started", "obs_scenarios_with_stop", "obs_system_arbiter_scenarios", "obs_block_on_values",
+                     "layer_miri_obs_thread_identity_checks"],
+        assumptions=COMMON_ASSUMPTIONS,
+    ),
 }
